@@ -122,8 +122,12 @@ def store_protocol(ctx: Ctx, prefix: str, which: set[str]) -> None:
     updates = [c for c in walk_body(f) if isinstance(c, ast.Call) and isinstance(c.func, ast.Attribute) and c.func.attr == "update" and dotted(c.func.value) == entry]
     ctx.need(writes and updates, "Database.store: the two write forms (new entry / update) were not found")
     for w in writes:
-        ok = dotted(w.targets[0].slice) == key and dotted(w.value) == f.args.args[2].arg
-        ctx.ob(f"{prefix}-write", con, ok, "a new entry must be `__data[<converted key>] = outputs`", node=w)
+        p_out = f.args.args[2].arg
+        v_ = w.value
+        # the outputs themselves or a fresh mapping of them (dict(outputs), outputs.copy(), {**outputs})
+        is_out = dotted(v_) == p_out or (isinstance(v_, ast.Call) and ((dotted(v_.func) == "dict" and len(v_.args) == 1 and dotted(v_.args[0]) == p_out) or (isinstance(v_.func, ast.Attribute) and v_.func.attr == "copy" and dotted(v_.func.value) == p_out))) or (isinstance(v_, ast.Dict) and len(v_.keys) == 1 and v_.keys[0] is None and dotted(v_.values[0]) == p_out)
+        ok = dotted(w.targets[0].slice) == key and is_out
+        ctx.ob(f"{prefix}-write", con, ok, "a new entry must hold the given outputs under the converted key: `__data[<converted key>] = outputs` (or a copy of them)", node=w)
         wn = cfg.node_of(w)
         conds = branch_conditions(cfg, wn)
         ok = any(v and isinstance(cfg.ast[t].test, ast.Compare) and dotted(cfg.ast[t].test.left) == entry and isinstance(cfg.ast[t].test.ops[0], ast.Is) for t, v in conds)
